@@ -925,7 +925,7 @@ func c14Behaviours(set string, thorough, long bool) []c14Behaviour {
 	if long {
 		scripts = []string{"failforever"}
 		if thorough {
-			scripts = append(scripts, "fail9", "fail10", "fail19", "fail20", "fail21")
+			scripts = append(scripts, "fail10", "fail20") // the threshold of GetFailedEvents and the retry budget
 		}
 	} else {
 		out = append(out, c14Behaviour{"", "ok"})
